@@ -228,7 +228,7 @@ fn random_kind(r: &mut Rng, tier: Tier, index: u64) -> Kind {
         8 => Kind::Random { n: r.usize(0, 12) },
         _ => Kind::EvFault {
             base: BaseEvent { run: *r.pick(&[u32::MAX, 11084, 9277, 0]), seed: r.next_u64(), n_wires: r.usize(1, 30), n_pad_msgs: r.usize(0, 3), long_only: r.chance(1, 2), pad_start: None, suppressed_only: false },
-            slot: r.usize(0, 31),
+            slot: r.usize(0, 33),
         },
     }
 }
